@@ -1907,6 +1907,7 @@ bool tNMEA2000::TestHandleTPMessage(unsigned long PGN, unsigned char Source, uns
         if ( !IsValidDevice(iDev) ) break; // Should never fail
         N2kMsgDbgStart("Got TP CTS"); N2kMsgDbgln(MsgIndex);
         if ( IsBroadcast(Devices[iDev].PendingTPMsg.Destination) ) break; // We should not get controls for broadcast TP msg
+        if ( Devices[iDev].PendingTPMsg.Destination!=Source ) break; // Control is not from the node we are sending to
         if ( Devices[iDev].PendingTPMsg.PGN!=TransportPGN ) { // Some failure on communication
           EndSendTPMessage(iDev); // Should we retry from beginning?
           break;
@@ -1928,12 +1929,14 @@ bool tNMEA2000::TestHandleTPMessage(unsigned long PGN, unsigned char Source, uns
         if ( !IsValidDevice(iDev) ) break; // Should never fail
         N2kMsgDbgStart("Got TP ACK"); N2kMsgDbgln(MsgIndex);
         if ( IsBroadcast(Devices[iDev].PendingTPMsg.Destination) ) break; // We should not get controls for broadcast TP msg
+        if ( Devices[iDev].PendingTPMsg.Destination!=Source ) break; // Control is not from the node we are sending to
         EndSendTPMessage(iDev);
         break;
       case TP_CM_Abort:
         if ( !IsValidDevice(iDev) ) break; // Should never fail
         N2kMsgDbgStart("Got TP Abort"); N2kMsgDbgln(MsgIndex);
         if ( IsBroadcast(Devices[iDev].PendingTPMsg.Destination) ) break; // We should not get controls for broadcast TP msg
+        if ( Devices[iDev].PendingTPMsg.Destination!=Source ) break; // Control is not from the node we are sending to
         EndSendTPMessage(iDev);
         break;
       default:
